@@ -708,15 +708,17 @@ func (s stringT) Set(k, v Value)            { panic("unsupported") }
 func (s stringT) Len() int                  { return len(s) }
 func (s stringT) Range() func() (Value, Value, bool) {
 	var r []rune
-	for _, v := range s {
+	var o []int
+	for k, v := range s {
 		r = append(r, v)
+		o = append(o, k)
 	}
 	n := 0
 	return func() (Value, Value, bool) {
 		if n >= len(r) {
 			return Nil(), Nil(), false
 		}
-		k, v := Int(n), r[n]
+		k, v := Int(o[n]), r[n]
 		n++
 		return k, Int32(v), true
 	}
